@@ -609,15 +609,16 @@ structure WellFormed (M : Model) : Prop where
   classes_are_leaves : ∀ c, (c ∈ M.cryptoRand ∨ c ∈ M.mathRand ∨ c ∈ M.seeders ∨ c ∈ M.clock ∨ c ∈ M.suspect) → c ∈ M.leaves
   seeders_math : ∀ s, s ∈ M.seeders → s ∈ M.mathRand
   entries_ne : M.entries ≠ []
-  generators_ne : M.generators ≠ []
+  used_sub : ∀ g, g ∈ M.usedGenerators → g ∈ M.generators
+  generators_ne : M.usedGenerators ≠ []
   secrets_ne : M.secrets ≠ []
 
 theorem closedB_spec (M : Model) (h : M.closedB = true) : WellFormed M := by
   simp only [closedB, Bool.and_eq_true, Bool.not_eq_true'] at h
-  obtain ⟨⟨⟨⟨⟨⟨⟨⟨⟨⟨⟨⟨⟨⟨⟨h1, h2⟩, h3⟩, h4⟩, _⟩, _⟩, _⟩, _⟩, _⟩, _⟩, h11⟩, h12⟩, h13⟩, h14⟩, h15⟩, h16⟩ := h
+  obtain ⟨⟨⟨⟨⟨⟨⟨⟨⟨⟨⟨⟨⟨⟨⟨⟨h1, h2⟩, h3⟩, h4⟩, _⟩, _⟩, _⟩, _⟩, _⟩, _⟩, h11⟩, h12⟩, h13⟩, hused⟩, h14⟩, h15⟩, h16⟩ := h
   have hrows := rows2Lt_spec _ M.chunk _ h3
   have hroots := (allLt_iff _ _).mp h4
-  refine ⟨h1, Nat.eq_of_beq_eq_true h2, hroots, hrows, ?_, ?_, ?_, ?_, ?_, ?_, ?_⟩
+  refine ⟨h1, Nat.eq_of_beq_eq_true h2, hroots, hrows, ?_, ?_, ?_, ?_, ?_, ?_, ?_, ?_⟩
   · intro r hr; exact Mtv.Rand.reach_lt M.sc M.numNodes hrows r (hroots r hr)
   · intro l hl
     have := (allB_iff _ _).mp h11 l hl
@@ -638,6 +639,10 @@ theorem closedB_spec (M : Model) (h : M.closedB = true) : WellFormed M := by
     rw [testBit_toMask] at this
     exact (mem_iff _ _).mp this
   · intro e; rw [e] at h14; simp at h14
+  · intro g hg
+    have := (allIn_iff _ _).mp hused g hg
+    rw [testBit_toMask] at this
+    exact (mem_iff _ _).mp this
   · intro e; rw [e] at h15; simp at h15
   · intro e; rw [e] at h16; simp at h16
 
